@@ -97,6 +97,16 @@ def extendFromWithin (xs : List α) (sb eb : Bnd) : Option (List α) :=
     Result: (self, other). -/
 def append (xs other : List α) : List α × List α := (xs ++ other, [])
 
+/-- Appending one vector to another across types (`InlineVec::const_append` between two inline
+    vectors of different capacities): exactly `Vec::append` — the destination gets everything, in
+    order, the source is left empty. (The fixed-capacity rule — the *destination's* capacity must
+    hold the total — is stated by `needs` in `Lemmas/Vecs.lean`.) Result: (self, other). -/
+def constAppend (xs other : List α) : List α × List α := append xs other
+
+/-- `Vec::reserve(n)`, then the first `n` slots of `Vec::spare_capacity_mut()` written with `vals`
+    and `unsafe { set_len(len + n) }`: the values are appended in order. -/
+def spareWrite (xs vals : List α) : List α := xs ++ vals
+
 /-- `Vec::split_off(at)`: panics if `at > len`; result (self = `[0, at)`, returned = `[at, len)`). -/
 def splitOff (xs : List α) (n : Nat) : Option (List α × List α) :=
   if n ≤ xs.length then some (xs.take n, xs.drop n) else none
